@@ -66,7 +66,42 @@ pub fn run_ska_env(ctx: &Ctx, cwd: &Path, args: &[&str], env: &[(&str, &str)]) -
     if verbose_ok && (ctx.counter.get() as usize + salt) % 5 == 2 {
         cmd.arg("-v");
     }
-    cmd.args(args)
+    // Documented defaults and option spellings (cli.rs of the pinned tree, README): an option given with its
+    // documented default value may as well be left out, and the short and the long form of an option
+    // mean the same. A third of the eligible occurrences are rewritten that way (decided by the case
+    // counter and the argument list only).
+    const DEFAULTS: [(&str, &str, &str); 16] = [
+        ("build", "-k", "17"), ("build", "--min-count", "5"), ("build", "--min-qual", "20"), ("build", "--qual-filter", "strict"),
+        ("align", "--min-freq", "0.9"), ("align", "--filter", "no-const"),
+        ("map", "-f", "aln"), ("map", "--format", "aln"),
+        ("distance", "--min-freq", "0"), ("weed", "--min-freq", "0.9"), ("weed", "--filter", "no-filter"),
+        ("lo", "-m", "0.1"), ("lo", "-d", "4"), ("lo", "-n", "2"), ("cov", "-k", "17"), ("align", "--threads", "1"),
+    ];
+    const SPELLINGS: [(&str, &str, &str); 9] = [
+        ("align", "--min-freq", "-m"), ("distance", "--min-freq", "-m"), ("weed", "--min-freq", "-m"),
+        ("map", "-f", "--format"), ("delete", "-s", "--skf-file"),
+        ("lo", "-m", "--missing"), ("lo", "-r", "--reference"), ("lo", "-d", "--depth"), ("lo", "-n", "--indel-kmers"),
+    ];
+    let sub = args.first().copied().unwrap_or("");
+    let mut rewritten: Vec<String> = Vec::with_capacity(args.len());
+    let mut i = 0;
+    while i < args.len() {
+        let pick = (ctx.counter.get() as usize + salt + 7 * i) % 3;
+        if i + 1 < args.len() && pick == 0 && DEFAULTS.iter().any(|(s, o, v)| *s == sub && *o == args[i] && *v == args[i + 1]) {
+            i += 2; // leave the option out: its documented default applies
+            continue;
+        }
+        if pick == 1 {
+            if let Some((_, _, other)) = SPELLINGS.iter().find(|(s, o, _)| *s == sub && *o == args[i]) {
+                rewritten.push(other.to_string());
+                i += 1;
+                continue;
+            }
+        }
+        rewritten.push(args[i].to_string());
+        i += 1;
+    }
+    cmd.args(&rewritten)
         .current_dir(cwd)
         .stdin(Stdio::null())
         .stdout(Stdio::piped())
